@@ -47,7 +47,10 @@ Presets == [empty    |-> <<>>,
             full     |-> <<<<0, 1073741724>>>>,
             over     |-> <<<<0, 1073741825>>>>,
             last     |-> <<<<1022, 480>>>>,
-            all      |-> [i \in 1..1023 |-> <<i - 1, 480>>]]       \* every index taken
+            all      |-> [i \in 1..1023 |-> <<i - 1, 480>>],       \* every index taken
+            foreign  |-> <<<<0, 700>>, <<1, 480>>, <<1023, 480>>>>]  \* plus names load_existing must ignore (Foreign)
+\* "data.abc", "data.00", "index.000", "data.000.tmp", "data.00001", "Data.002"
+Foreign == IF PreName = "foreign" THEN <<"data.abc", "data.00", "index.000", "data.000.tmp", "data.00001", "Data.002">> ELSE <<>>
 Pre == Presets[PreName]
 FilesOfPre(l) == [i \in {l[k][1] : k \in DOMAIN l} |-> l[CHOOSE k \in DOMAIN l : l[k][1] = i][2]]
 
@@ -177,7 +180,7 @@ PlannerSound ==
 
 Emit ==
   CASE Family = "alloc" ->
-         Len(hist) = D => PrintT(<<"PROGRAM", ToJson([kind |-> "alloc", max |-> Max0, pre |-> Pre, load |-> Load0, ops |-> hist])>>)
+         Len(hist) = D => PrintT(<<"PROGRAM", ToJson([kind |-> "alloc", max |-> Max0, pre |-> Pre, foreign |-> Foreign, load |-> Load0, ops |-> hist])>>)
     [] Family = "fn" -> PrintT(<<"PROGRAM", ToJson([kind |-> "fn", ops |-> hist])>>)
     [] OTHER -> PrintT(<<"PROGRAM", ToJson([kind |-> "dyn", limit |-> s[1], maxsize |-> s[2], pre |-> Presets[s[3]], ops |-> hist])>>)
 =============================================================================
